@@ -18,13 +18,17 @@ META = {
             "switches between the with-error and the without-error format must remove the sibling file, otherwise a later read "
             "finds two files and fails. (2) the header is written on every set, before any early return. (3) __delitem__/empty/"
             "unload have no file-system effect and never add a key (unloading an absent point must not create a phantom member). "
-            "(4) __getitem__ re-reads from disk whenever the cached value is None. (5) EKO.approx is partially evaluated on "
+            "(4) EVERY HISTORY of at most 3 (thorough: 4) operations - store with errors, store without, unload, read, unload "
+            "everything, items(), re-open the directory with a fresh object - over two evolution points that share their scale is "
+            "evaluated on the model file system of sa/fsmodel.py against a dictionary: after every step the store lists exactly the "
+            "dictionary's keys (iteration, membership), reads return the value stored last element by element or raise for an absent "
+            "point, items() yields everything and leaves nothing loaded, re-opening loses nothing. (5) EKO.approx is partially evaluated on "
             "concrete stores covering every ordering (same/different nf at equal scale, scales inside/outside tolerance): it "
-            "returns the unique point within tolerance with the query's nf, None, or raises when ambiguous. (6) items() unloads "
-            "every operator it loaded; __iter__/__contains__ enumerate exactly the store's keys.",
-    "note": "Necessary structural conditions of the persistent-map behaviour; the step-by-step equivalence with a dictionary "
-            "model under arbitrary histories is a dynamic property and is not decided. Nothing is executed.",
-    "technique": "abstract interpretation of file effects over a finite extension-state domain + typestate rules + exhaustive PE of the approximate lookup",
+            "returns the unique point within tolerance with the query's nf, None, or raises when ambiguous.",
+    "note": "The equivalence with a dictionary model is decided for every history up to the stated length over two evolution points "
+            "(values symbolic, so for all operator contents); longer histories and more points are not enumerated. OS-level failures are "
+            "C38's subject. Nothing is executed: the repository's code is partially evaluated on a model file system.",
+    "technique": "exhaustive partial evaluation of bounded operation histories on a model file system against a dictionary model; abstract interpretation of file effects over a finite extension-state domain; exhaustive PE of the approximate lookup",
     "engine": "sa",
 }
 
@@ -153,31 +157,8 @@ def rest(chk, src, pe, cls, fset, fdel, fget, defs, sites):
     chk.decide(bool(head_writes) and min(c.lineno for c in head_writes) < first_ret, "header-written-on-every-set", fset.qname,
                "the header file is not written before the first return of __setitem__", where=fset.where,
                detail="header dumped before any return")
-    # ---- (3) unload has no fs effect and never adds a key ---------------------------------------------------
-    for name in ("__delitem__", "empty"):
-        f = cls.methods[name]
-        chk.decide(not _write_sites(f.node, set()), "unload-has-no-fs-effect", f.qname, f"{f.qname} touches the file system",
-                   where=f.where, detail="no fs effect")
-    stores = [n for n in ast.walk(fdel.node) if isinstance(n, ast.Assign) and any("self.cache" in ast.unparse(t) for t in n.targets)]
-    guarded = True
-    for stn in stores:
-        ok = False
-        for iff in ast.walk(fdel.node):
-            if isinstance(iff, ast.If) and any(m is stn for b in iff.body for m in ast.walk(b)):
-                t = iff.test
-                if isinstance(t, ast.Compare) and isinstance(t.ops[0], ast.In) and "self.cache" in ast.unparse(t.comparators[0]):
-                    ok = True
-        guarded = guarded and ok
-    chk.decide(guarded, "unload-never-adds-a-key", fdel.qname,
-               f"`{stmt_text(stores[0]) if stores else ''}` also runs for a header that is not in the inventory: `del eko[ep]` (or the "
-               f"`operator(ep)` context manager) on an absent point creates a phantom member that is listed by iteration and "
-               f"membership but cannot be read", where=fdel.where, instance="store without membership test",
-               detail="cache store under `if header in self.cache`")
-    # ---- (4) __getitem__ re-reads when the cached value is None ------------------------------------------------
-    txt = ast.unparse(fget.node)
-    chk.decide("op is not None or self.contentless" in txt and "Operator.load" in txt and "self.cache[header] = op" in txt,
-               "getitem-rereads-after-unload", fget.qname, "__getitem__ no longer reloads an unloaded operator from disk and caches it",
-               where=fget.where)
+    # ---- (3) unloading neither touches the file system nor adds a key: decided on every bounded history (_histories) ------------
+    # ---- (4) re-reading after unload, (6) items / iteration / membership: decided on every bounded history (_histories) --------
     # ---- (5) approx ------------------------------------------------------------------------------------------------
     eko_cls = src.cls("eko.io.struct.EKO")
     fap = eko_cls.methods["approx"]
@@ -223,17 +204,127 @@ def rest(chk, src, pe, cls, fset, fdel, fget, defs, sites):
     if not n_bad:
         chk.ok("approx-unique-none-or-error", fap.qname, f"{n_cases} (store, query) cases", how="exhaustive PE")
     chk.floor("approx cases", n_cases, 100)
-    # ---- (6) items() unloads; iteration/membership enumerate the store keys -----------------------------------------
-    fitems = eko_cls.methods["items"]
-    has_yield = any(isinstance(n, ast.Yield) for n in ast.walk(fitems.node))
-    dels = [n for n in ast.walk(fitems.node) if isinstance(n, ast.Delete)]
-    chk.decide(has_yield and bool(dels), "items-unloads-what-it-loaded", fitems.qname, "items() no longer unloads after yielding",
-               where=fitems.where)
-    it = eko_cls.methods["__iter__"]
-    co = eko_cls.methods["__contains__"]
-    chk.decide("self.operators" in ast.unparse(it.node) and ".ep" in ast.unparse(it.node) and "self.operators" in ast.unparse(co.node)
-               and "Target.from_ep" in ast.unparse(co.node), "iteration-and-membership-use-the-store", eko_cls.qname,
-               "EKO.__iter__/__contains__ no longer enumerate/test the keys of the operators inventory", where=it.where)
-    chk.note(files=["src/eko/io/inventory.py", "src/eko/io/struct.py"], approx_cases=n_cases)
+    n_hist = _histories(chk, src, 4 if chk.tier == "thorough" else 3)
+    chk.note(files=["src/eko/io/inventory.py", "src/eko/io/struct.py"], approx_cases=n_cases, histories=n_hist)
     chk.explanation = ("File-effect invariant of the operator store, typestate of unload, and exhaustive evaluation of the tolerance "
                        "lookup on small stores.")
+
+
+def _histories(chk, src, depth):
+    """The operator store against a dictionary model, for EVERY history of at most `depth` operations over two evolution points:
+    store with errors / store without errors / unload / read / unload everything / iterate with items() / re-open the directory
+    with a fresh object.  After every step the store must list exactly the model's keys (iteration and membership), a read must
+    return the model's value element by element (or raise for an absent point), and re-opening must lose nothing.  The
+    repository's code runs on the model file system of sa/fsmodel.py."""
+    from .. import dag, fsmodel
+
+    ekoc = src.cls("eko.io.struct.EKO")
+    acls = src.cls("eko.io.access.AccessConfigs")
+    ocls = src.cls("eko.io.items.Operator")
+    mdc = src.cls("eko.io.metadata.Metadata")
+    eps = [(Fraction(100), 5), (Fraction(100), 4)]     # same scale, different nf: distinct keys
+    ops = [("set+err", 0), ("set+err", 1), ("set", 0), ("set", 1), ("unload", 0), ("unload", 1), ("get", 0), ("get", 1),
+           ("unload-all",), ("items",), ("reopen",)]
+    counter = [0]
+
+    def operator(with_err):
+        counter[0] += 1
+        tag = f"o{counter[0]}"
+        o = Obj(ocls)
+        o.attrs.update(operator=Arr.from_nested([[[[dag.sym(f"{tag}_{a}{i}{b}{j}") for j in range(2)] for b in range(2)] for i in range(2)] for a in range(2)]),
+                       error=Arr.from_nested([[[[dag.sym(f"{tag}e_{a}{i}{b}{j}") for j in range(2)] for b in range(2)] for i in range(2)] for a in range(2)])
+                       if with_err else None)
+        return o
+
+    def same(x, y):
+        if x is None or y is None:
+            return x is None and y is None
+        return x.shape == y.shape and all(a is b for a, b in zip(x.flat(), y.flat()))
+
+    def bound(pe, o, name):
+        from ..pe import Bound, Closure
+
+        m = src.find_method(o.cls, name)
+        return Bound(o, Closure(m, m.node, None, m.module, m.qname))
+
+    n_hist = n_steps = bad = 0
+    fset = ekoc.methods["__setitem__"]
+    for length in range(1, depth + 1):
+        for hist in itertools.product(ops, repeat=length):
+            if hist[0][0] in ("unload-all", "items", "reopen") and length > 1 and hist[0][0] == "reopen":
+                continue
+            n_hist += 1
+            fs = fsmodel.FS()
+            pe = PE(src)
+            fsmodel.install(pe, fs)
+            work = fs.path("/work")
+            work.mkdir()
+            acc = Obj(acls)
+            acc.attrs.update(path=fs.path("/a.tar"), readonly=False, open=True)
+
+            def new_eko():
+                invs = pe.call("eko.io.struct.inventories", [work, acc])
+                for inv in invs.values():
+                    inv.attrs["path"].mkdir(parents=True, exist_ok=True)
+                md = Obj(mdc)
+                md.attrs.update(origin=(Fraction(2), 4), xgrid="XG", _path=work, version="0", data_version=3)
+                e = pe.new_object(ekoc, [], dict(invs, metadata=md, access=acc))
+                pe.apply(bound(pe, e.attrs["operators"], "sync"), [], {})
+                return e
+
+            eko = new_eko()
+            model = {}
+            why = None
+            for si, step in enumerate(hist):
+                n_steps += 1
+                try:
+                    if step[0].startswith("set"):
+                        o = operator(step[0] == "set+err")
+                        pe.apply(bound(pe, eko, "__setitem__"), [eps[step[1]], o], {})
+                        model[eps[step[1]]] = o
+                    elif step[0] == "unload":
+                        pe.apply(bound(pe, eko, "__delitem__"), [eps[step[1]]], {})
+                    elif step[0] == "get":
+                        ep = eps[step[1]]
+                        try:
+                            g = pe.apply(bound(pe, eko, "__getitem__"), [ep], {})
+                            if ep not in model:
+                                why = f"step {si + 1} {step}: reading an absent point returns {type(g).__name__} instead of raising"
+                            elif not (isinstance(g, Obj) and same(g.attrs.get("operator"), model[ep].attrs["operator"]) and same(g.attrs.get("error"), model[ep].attrs["error"])):
+                                why = f"step {si + 1} {step}: the operator read differs from the one stored last"
+                        except PERaise as e:
+                            if ep in model:
+                                why = f"step {si + 1} {step}: reading a stored point raises {e}"
+                    elif step[0] == "unload-all":
+                        pe.apply(bound(pe, eko, "unload"), [], {})
+                    elif step[0] == "items":
+                        its = list(pe.apply(bound(pe, eko, "items"), [], {}))
+                        got = {tuple(k): v for k, v in its}
+                        if set(map(str, got)) != set(map(str, model)) or not all(same(got[k].attrs["operator"], model[k].attrs["operator"]) for k in model):
+                            why = f"step {si + 1}: items() yields {[tuple(map(str, k)) for k in got]}, the model holds {[tuple(map(str, k)) for k in model]}"
+                        left = [k for k, v in eko.attrs["operators"].attrs["cache"].items() if v is not None]
+                        if left:
+                            why = f"step {si + 1}: items() leaves {len(left)} operator(s) loaded"
+                    elif step[0] == "reopen":
+                        eko = new_eko()
+                except PERaise as e:
+                    why = f"step {si + 1} {step}: raises {e}"
+                if why is None:
+                    keys = [tuple(k) for k in pe.iterate(eko)]
+                    member = [pe._contains(eko, ep) for ep in eps]
+                    if sorted(map(str, keys)) != sorted(map(str, model)) or member != [ep in model for ep in eps]:
+                        why = (f"after step {si + 1} {step}: the store lists {[tuple(map(str, k)) for k in keys]} (membership {member}), "
+                               f"a map holds {[tuple(map(str, k)) for k in model]}")
+                if why:
+                    break
+            if why:
+                bad += 1
+                if bad <= 5:
+                    chk.fail("store-agrees-with-a-map-on-every-history", fset.qname,
+                             f"history {[s[0] + (':' + str(eps[s[1]][1]) if len(s) > 1 else '') for s in hist]}: {why}", where=fset.where,
+                             instance=",".join(s[0] + (str(s[1]) if len(s) > 1 else "") for s in hist))
+    if not bad:
+        chk.ok("store-agrees-with-a-map-on-every-history", fset.qname,
+               f"{n_hist} histories of up to {depth} operations ({n_steps} steps) over two evolution points", how="exhaustive PE on a model file system")
+    chk.floor("histories", n_hist, 100)
+    return n_hist
